@@ -123,6 +123,20 @@ def run(ctx):
                 for i, (mm, orig) in enumerate(zip(ms2.sims, members)):
                     dch = diff_keys(fingerprint(orig, states=False), fingerprint(mm, states=False))
                     if dch: viol(f'{kind}: reduce(use_mean={use_mean}) changed member {i} ({dch[0]})', dict(W, member=i)); break
+                # the summary published by the reduction is the summary of the REDUCED series (mean; last entry for cumulative series), not that of a member
+                try:
+                    flat_red = sc.flattendict(ms2.results, sep='_'); summ = dict(ms2.summary)
+                    how = {'n_': 'mean', 'new_': 'mean', 'cum_': 'last', 'timevec': 'last', '': 'mean'}
+                    ctx.count((kind, base, 'reduced-summary', use_mean), nontrivial=True); ctx.dist('summary after reduce')
+                    for k_, res_ in flat_red.items():
+                        if 'timevec' in k_ or k_ not in summ: continue
+                        fn = next(h for hk, h in how.items() if hk in k_)
+                        arr_ = np.asarray(res_, dtype=float); want_ = float(arr_[-1]) if fn == 'last' else float(arr_.mean())
+                        got_ = summ[k_]
+                        if isinstance(got_, str) or not np.isclose(float(got_), want_, rtol=1e-9, atol=1e-9, equal_nan=True):
+                            viol(f'{kind}: after reduce(use_mean={use_mean}) the summary reports {k_} = {got_}; the reduced series gives {want_}', dict(W, key=k_, use_mean=use_mean)); break
+                except Exception as E:
+                    viol(f'{kind}: summary after reduce raised {type(E).__name__}: {E}', W)
                 first = {k: (np.asarray(ms2.results[k]).copy(), np.asarray(ms2.results[k].low).copy(), np.asarray(ms2.results[k].high).copy()) for k in keys[:12]}
                 ms2.reduce(use_mean=use_mean, quantiles=None if use_mean else {'low': 0.1, 'high': 0.9})
                 for k in keys[:12]:
